@@ -1,5 +1,6 @@
 """C08 - reported free Wyckoff parameters regenerate the atoms of their set."""
 import ast
+import re
 from fractions import Fraction as F
 
 from .. import tableobl as TO
@@ -13,64 +14,115 @@ FQ = SA + "._get_wyckoff_sets"
 
 
 # ----------------------------------------------------------------------------- R08.2
-def find_solver(M):
-    """recognise   for idx, var in variable_map.items(): for icomp in range(3): if GUARD: W[idx] = RHS; break
-    -> dict(idx, icomp, guard=(kind, const), r_index, c_index, scaled(bool), has_break, stmt)"""
-    fn = M.func(FQ)
-    cands = []
-    for outer in ast.walk(fn):
-        if not (isinstance(outer, ast.For) and isinstance(outer.target, ast.Tuple) and len(outer.target.elts) == 2):
-            continue
-        if not (isinstance(outer.iter, ast.Call) and isinstance(outer.iter.func, ast.Attribute) and outer.iter.func.attr == "items"):
-            continue
-        idx = norm(outer.target.elts[0])
-        for inner in outer.body:
-            if not (isinstance(inner, ast.For) and isinstance(inner.target, ast.Name) and isinstance(inner.iter, ast.Call)
-                    and isinstance(inner.iter.func, ast.Name) and inner.iter.func.id == "range"
-                    and len(inner.iter.args) == 1 and isinstance(inner.iter.args[0], ast.Constant) and inner.iter.args[0].value == 3):
-                continue
-            icomp = inner.target.id
-            for st in inner.body:
-                if not isinstance(st, ast.If):
-                    continue
-                for s in st.body:
-                    if isinstance(s, ast.Assign) and isinstance(s.targets[0], ast.Subscript) and norm(s.targets[0].slice) == idx:
-                        cands.append((outer, inner, st, s, idx, icomp))
-    if len(cands) != 1:
-        raise AnalysisError(f"_get_wyckoff_sets: expected one variable-extraction statement `W[idx] = ...`, found {len(cands)}")
-    outer, inner, st, s, idx, icomp = cands[0]
-    wname = norm(s.targets[0].value)
-    # guard: M[idx][icomp] == 1   or   M[idx][icomp] != 0
-    g = st.test
-    if not (isinstance(g, ast.Compare) and len(g.ops) == 1 and isinstance(g.comparators[0], ast.Constant)):
-        raise AnalysisError(f"solver guard `{norm(g)}` not modelled")
-    gl = g.left
-    if not (isinstance(gl, ast.Subscript) and isinstance(gl.value, ast.Subscript)
-            and norm(gl.value.slice) == idx and norm(gl.slice) == icomp):
-        raise AnalysisError(f"solver guard `{norm(g)}` is not a test of M[{idx}][{icomp}]")
-    mname = norm(gl.value.value)
-    gop = type(g.ops[0]).__name__
-    gconst = g.comparators[0].value
-    if (gop, gconst) not in (("Eq", 1), ("Eq", 1.0), ("NotEq", 0), ("NotEq", 0.0)):
-        raise AnalysisError(f"solver guard `{norm(g)}` not modelled")
-    # RHS: (R[i] - C[j]) [/ M[idx][icomp]]
-    rhs = s.value
+def _parse_rhs(rhs, idx, icomp, stmt):
+    """(R[i] - C[j]) [/ M[idx][icomp]] -> (r_role, c_role, scaled, Mname, Cname)"""
     scaled = False
+    mname = None
     if isinstance(rhs, ast.BinOp) and isinstance(rhs.op, ast.Div):
-        if norm(rhs.right) != f"{mname}[{idx}][{icomp}]":
-            raise AnalysisError(f"solver divides by `{norm(rhs.right)}`: not modelled")
+        d = rhs.right
+        if not (isinstance(d, ast.Subscript) and isinstance(d.value, ast.Subscript) and norm(d.value.slice) == idx and norm(d.slice) == icomp):
+            raise AnalysisError(f"solver divides by `{norm(d)}`: not modelled")
+        mname = norm(d.value.value)
         scaled = True
         rhs = rhs.left
     if not (isinstance(rhs, ast.BinOp) and isinstance(rhs.op, ast.Sub) and isinstance(rhs.left, ast.Subscript)
             and isinstance(rhs.right, ast.Subscript)):
-        raise AnalysisError(f"solver right-hand side `{norm(s.value)}` is not of the form R[i] - C[j]")
+        raise AnalysisError(f"solver right-hand side `{norm(stmt.value)}` is not of the form R[i] - C[j]")
     ri, ci = norm(rhs.left.slice), norm(rhs.right.slice)
     if ri not in (idx, icomp) or ci not in (idx, icomp):
         raise AnalysisError(f"solver indices `{ri}`, `{ci}` not modelled")
-    rname, cname = norm(rhs.left.value), norm(rhs.right.value)
-    has_break = any(isinstance(x, ast.Break) for x in st.body)
-    # M, C must be the first representative: M = Ms[0], C = Cs[0]; Ms/Cs = wyckoff_info["matrices"/"constants"]
+    return ("idx" if ri == idx else "icomp"), ("idx" if ci == idx else "icomp"), scaled, mname, norm(rhs.right.value)
+
+
+def find_solver(M):
+    """recognise the statement that extracts a free variable from the first representative. Two shapes:
+      A  for idx, var in variable_map.items(): for icomp in range(3): if GUARD(M[idx][icomp]): W[idx] = RHS [; break]
+      B  for idx in variable_map: icomp = SELECT(M[idx]); W[idx] = RHS
+    -> dict(select=callable(row)->component or None, r, c, scaled, text, first_M, first_C, stmt)"""
+    fn = M.func(FQ)
     fl = Flow(fn)
+    cands = []
+    for outer in ast.walk(fn):
+        if not isinstance(outer, ast.For):
+            continue
+        it = outer.iter
+        over_map = (isinstance(it, ast.Call) and isinstance(it.func, ast.Attribute) and it.func.attr in ("items", "keys") and "variable_map" in norm(it.func.value)) \
+            or (isinstance(it, ast.Name) and it.id == "variable_map")
+        if not over_map:
+            continue
+        idx = norm(outer.target.elts[0]) if isinstance(outer.target, ast.Tuple) else norm(outer.target)
+        for st in outer.body:
+            # shape A
+            if isinstance(st, ast.For) and isinstance(st.target, ast.Name) and isinstance(st.iter, ast.Call) and isinstance(st.iter.func, ast.Name) \
+                    and st.iter.func.id == "range" and len(st.iter.args) == 1 and isinstance(st.iter.args[0], ast.Constant) and st.iter.args[0].value == 3:
+                icomp = st.target.id
+                for g in st.body:
+                    if isinstance(g, ast.If):
+                        for s in g.body:
+                            if isinstance(s, ast.Assign) and isinstance(s.targets[0], ast.Subscript) and norm(s.targets[0].slice) == idx:
+                                cands.append(("A", outer, st, g, s, idx, icomp))
+            # shape B
+            if isinstance(st, ast.Assign) and isinstance(st.targets[0], ast.Subscript) and norm(st.targets[0].slice) == idx:
+                names = {x.id for x in ast.walk(st.value) if isinstance(x, ast.Name)}
+                sel = [a for a in outer.body if isinstance(a, ast.Assign) and isinstance(a.targets[0], ast.Name) and a.targets[0].id in names
+                       and outer.body.index(a) < outer.body.index(st) and idx in {x.id for x in ast.walk(a.value) if isinstance(x, ast.Name)}]
+                if sel:
+                    cands.append(("B", outer, None, sel[-1], st, idx, sel[-1].targets[0].id))
+    if len(cands) != 1:
+        raise AnalysisError(f"_get_wyckoff_sets: expected one variable-extraction statement `W[idx] = ...`, found {len(cands)}")
+    shape, outer, inner, g, s, idx, icomp = cands[0]
+    r_role, c_role, scaled, mdiv, cname = _parse_rhs(s.value, idx, icomp, s)
+    if shape == "A":
+        test = g.test
+        if not (isinstance(test, ast.Compare) and len(test.ops) == 1 and isinstance(test.comparators[0], ast.Constant)):
+            raise AnalysisError(f"solver guard `{norm(test)}` not modelled")
+        gl = test.left
+        absolute = False
+        if isinstance(gl, ast.Call) and norm(gl.func) in ("abs", "np.abs", "numpy.abs") and gl.args:
+            gl, absolute = gl.args[0], True
+        if not (isinstance(gl, ast.Subscript) and isinstance(gl.value, ast.Subscript) and norm(gl.value.slice) == idx and norm(gl.slice) == icomp):
+            raise AnalysisError(f"solver guard `{norm(test)}` is not a test of M[{idx}][{icomp}]")
+        mname = norm(gl.value.value)
+        op, const = type(test.ops[0]).__name__, F(str(test.comparators[0].value))
+        has_break = any(isinstance(x, ast.Break) for x in g.body)
+
+        def hit(m):
+            v = abs(m) if absolute else m
+            return {"Eq": v == const, "NotEq": v != const, "Gt": v > const, "GtE": v >= const, "Lt": v < const, "LtE": v <= const}[op]
+
+        def select(row):
+            fired = [ic for ic in range(3) if hit(row[ic])]
+            if not fired:
+                return None
+            return fired[0] if has_break else fired[-1]
+        text = f"if {norm(test)}: {norm(s)}" + ("; break" if has_break else "")
+    else:
+        v = g.value
+        t = norm(v).replace("numpy.", "np.")
+        m = re.match(r"^np\.flatnonzero\((\w+)\[(\w+)\]\)\[0\]$", t) or re.match(r"^np\.nonzero\((\w+)\[(\w+)\]\)\[0\]\[0\]$", t) \
+            or re.match(r"^np\.argmax\((\w+)\[(\w+)\] != 0\)$", t)
+        m_abs = re.match(r"^np\.argmax\(np\.abs\((\w+)\[(\w+)\]\)\)$", t)
+        m_max = re.match(r"^np\.argmax\((\w+)\[(\w+)\]\)$", t)
+        m_one = re.match(r"^list\((\w+)\[(\w+)\]\)\.index\(1(?:\.0)?\)$", t) or re.match(r"^np\.flatnonzero\((\w+)\[(\w+)\] == 1\)\[0\]$", t)
+        mm = m or m_abs or m_max or m_one
+        if not mm or mm.group(2) != idx:
+            raise AnalysisError(f"solver component selection `{t}` not modelled")
+        mname = mm.group(1)
+        if m:
+            def select(row):
+                nz = [ic for ic in range(3) if row[ic] != 0]
+                return nz[0] if nz else None
+        elif m_abs:
+            def select(row):
+                return max(range(3), key=lambda ic: (abs(row[ic]), -ic)) if any(row) else None
+        elif m_max:
+            def select(row):
+                return max(range(3), key=lambda ic: (row[ic], -ic))
+        else:
+            def select(row):
+                one = [ic for ic in range(3) if row[ic] == 1]
+                return one[0] if one else None
+        text = f"{norm(g)}; {norm(s)}"
     at = fl.node_of(s)
 
     def first_of(name, key):
@@ -79,10 +131,8 @@ def find_solver(M):
                    for e in sl["exprs"] for x in ast.walk(e))
         k = any(isinstance(x, ast.Constant) and x.value == key for e in sl["exprs"] for x in ast.walk(e))
         return zero and k
-    return dict(idx=idx, icomp=icomp, guard=(gop, gconst), r=("idx" if ri == idx else "icomp"),
-                c=("idx" if ci == idx else "icomp"), scaled=scaled, has_break=has_break, stmt=s,
-                first_M=first_of(mname, "matrices"), first_C=first_of(cname, "constants"),
-                text=f"if {norm(g)}: {norm(s)}" + ("; break" if has_break else ""))
+    return dict(select=select, r=r_role, c=c_role, scaled=scaled, stmt=s, text=text,
+                first_M=first_of(mname, "matrices"), first_C=first_of(cname, "constants"))
 
 
 def r08_2(rep, M, T, rid):
@@ -110,20 +160,12 @@ def r08_2(rep, M, T, rid):
                     continue
                 n += 1
                 key = f"WYCKOFF_SETS[{g}][{L!r}] variable {v}"
-                # simulate the guard scan over the components (exact table values)
-                fired = []
-                for ic in range(3):
-                    m = M0[vi][ic]
-                    hit = (m == 1) if sv["guard"][0] == "Eq" else (m != 0)
-                    if hit:
-                        fired.append(ic)
-                        if sv["has_break"]:
-                            break
-                if not fired:
-                    rep.violation(rid, key, f"no component of the first expression {info['expressions'][0]} passes the solver's "
-                                  f"guard: the variable is never extracted")
+                # evaluate the recognised component selection on the exact table row
+                ic = sv["select"](M0[vi])
+                if ic is None:
+                    rep.violation(rid, key, f"no component of the first expression {info['expressions'][0]} is selected by the solver "
+                                  f"`{sv['text']}`: the variable is never extracted")
                     continue
-                ic = fired[-1]
                 a = vi if sv["r"] == "idx" else ic
                 b = vi if sv["c"] == "idx" else ic
                 scale = M0[vi][ic] if sv["scaled"] else F(1)
@@ -230,6 +272,10 @@ def run(rep, ctx):
     TO.orbit_closure(rep, T, "R08.3")
     with rep.guard("R08.4"):
         r08_4(rep, M, "R08.4")
+    rep.rule("R08.5", "every memoised result of the analyzer is dropped by reset(), which set_system() calls (no answers for a previous structure)")
+    with rep.guard("R08.5"):
+        from .. import symrules as _SR
+        _SR.reset_covers_caches(rep, ctx.model, "R08.5")
     rep.floor("R08.1", 26000)
     rep.floor("R08.2", 1500)
     rep.floor("R08.3", 1700)
